@@ -24,9 +24,15 @@ def corpus():
                 continue
             if pid in (m.get("property"), *m.get("also_checked_by", [])):
                 out.append(("seeded/" + os.path.basename(d), patch, False))
-    # behaviour-preserving refactors written by independent agents: none may be reported by any property
+    # behaviour-preserving refactors written by independent agents: none may be reported. To keep the tier within
+    # minutes, a property re-checks the refactors that touch a file its own mutants and seeds touch (its area of the
+    # code); sweep.py runs every refactor against every property.
+    area = set()
+    for _, patch, _ in out:
+        area.update(touched(patch))
     for f in sorted(glob.glob(os.path.join(VERIF, "benign", "*.silent.patch"))):
-        out.append(("benign/" + os.path.basename(f), f, True))
+        if not area or area.intersection(touched(f)):
+            out.append(("benign/" + os.path.basename(f), f, True))
     return out
 
 def touched(patch):
